@@ -13,7 +13,7 @@ LEVEL = 'exploration'
 RULE = ('A case = initial values of 1-2 rows (int, nullable int, str, Decimal, bool, reference, two-column reference to a '
         'composite-key entity declared in front of the other attributes, float, volatile, optimistic=False '
         'attributes) + 2-3 session scripts (fetch by E[pk]/get/select/get_for_update/select().for_update(), attribute reads, '
-        'to_dict, get(**kw)/select filters, assignments, set(**kw), read-modify-write, dependent writes, delete, flush, commit() in '
+        'to_dict, get(**kw)/select filters (single-row and several-row results, query and select(**kw)), assignments, set(**kw), read-modify-write, dependent writes, delete, flush, commit() in '
         'the middle of the db_session, leaving and re-entering db_session on the same Database; end = commit/rollback/exception; '
         'three generators: free scripts, scripts built around one contended attribute, and two-transaction patterns (same '
         'updated/compared columns with NULL vs non-NULL read values; for_update lock, mid-session commit, then read and write)) + a schedule (one choice among runnable actors per operation) + a layout (one Database per '
@@ -58,6 +58,7 @@ def _strategies():
         'dict': st.tuples(st.just('dict'), obj),
         'getkw': st.tuples(st.just('getkw'), obj, attr, c),
         'selkw': st.tuples(st.just('selkw'), obj, attr, c),
+        'selmany': st.tuples(st.just('selmany'), attr, c, c),
         'write': st.tuples(st.just('write'), obj, attr, c),
         'set': st.tuples(st.just('set'), obj, st.lists(st.tuples(attr, c).map(list), min_size=1, max_size=3)),
         'bump': st.tuples(st.just('bump'), obj, st.integers(0, 3)),
@@ -67,7 +68,7 @@ def _strategies():
         'restart': st.tuples(st.just('restart')),
         'del': st.tuples(st.just('del'), obj),
     }
-    weights = dict(get=4, read=12, dict=2, getkw=2, selkw=2, write=10, set=2, bump=2, copy=2, flush=3, commit=2, restart=1,
+    weights = dict(get=4, read=12, dict=2, getkw=2, selkw=2, selmany=2, write=10, set=2, bump=2, copy=2, flush=3, commit=2, restart=1,
                    **{'del': 1})
     names = []
     for k in sorted(weights):
@@ -174,7 +175,7 @@ def special_strategy():
 
     @st.composite
     def build(draw):
-        kind = draw(st.sampled_from(['nullcache', 'nullcache', 'lockcommit']))
+        kind = draw(st.sampled_from(['nullcache', 'nullcache', 'lockcommit', 'manyfilter', 'manyfilter']))
         lay = draw(layout)
         rows = [draw(row), draw(row)]
         sep = [draw(st.sampled_from(['commit', 'commit', 'restart']))]
@@ -199,6 +200,19 @@ def special_strategy():
                 actors = [{'session': {}, 'ops': primer + [sep] + second, 'end': 'commit'},
                           {'session': {}, 'ops': [flip], 'end': 'commit'}]
                 sch = [0] * 4 + [1] * 2 + [0] * 2
+        elif kind == 'manyfilter':
+            # both rows satisfy a filter on attribute a; the session learns a only through that filter (query or kwargs),
+            # another session changes a on one of the rows, the first session then writes another attribute of that row
+            a = draw(st.sampled_from([names.index(n_) for n_ in ('n', 'k', 'm', 's', 'd')]))
+            b = draw(st.sampled_from([names.index(n_) for n_ in ('n', 'k', 's', 'd', 'b') if names.index(n_) != a]))
+            vc = draw(st.integers(1, 3))                        # choice 0 of a nullable attribute is NULL
+            rows[0][a] = rows[1][a] = vc
+            o = draw(st.integers(0, 1))
+            first = draw(st.lists(op, max_size=1)) + [['selmany', a, vc, draw(st.integers(0, 2))]]
+            rest = draw(st.lists(op, max_size=1)) + [['write', o, b, draw(c)]]
+            actors = [{'session': draw(session), 'ops': first + rest, 'end': 'commit'},
+                      {'session': {}, 'ops': [['write', o, a, vc + draw(st.integers(1, 2))]], 'end': 'commit'}]
+            sch = [0] * len(first) + [1] * 2 + [0] * (len(rest) + 1)
         else:
             o = draw(st.integers(0, 1))
             a = draw(st.sampled_from([names.index(n_) for n_ in ('n', 'k', 'm', 's', 'd', 'b', 'g')]))
